@@ -237,7 +237,9 @@ def restate(db, text, desc):
                 g = c["master"]
             n = n / g
         unit = ("eq/" + den) if kind == "eq" else ""
-        lines_b.append(f" {c['name']} {n!r} {unit}".rstrip())
+        # the weight the input names stays on the line: per-litre / per-kg-solution conversions add it to the solute mass
+        ann = (f" as {c['as_f']}" if c["as_f"] else "") + (f" gfw {c['gfw']!r}" if c["gfw"] > 0 else "")
+        lines_b.append(f" {c['name']} {n!r} {unit}".rstrip() + ann)
         elems.append(c["name"])
     obs = G.observables(elems)
     pb = G.punch_block(obs)
@@ -401,34 +403,66 @@ def compare_tables(obs, ra, rb, k, last_only=False, stats=None):
             if tag == "p":
                 continue            # pe of a system without a redox couple is not determined by the input (see MANIFEST)
             if tag == "e":
-                a2, fl = a * k, floor_for(name, mu, water * k, True)
+                a2, fl = a * k, floor_for(name, mu, water * k, True, va)
             else:
-                a2, fl = a, floor_for(name, mu, 1.0, False)
+                a2, fl = a, floor_for(name, mu, 1.0, False, va)
             if stats is not None and a2 != b:
                 d = abs(a2 - b) / max(abs(a2), abs(b))
                 stats.append((d, abs(a2 - b), h, a2, b))
+            if math.isinf(fl):
+                continue
             if not close(a2, b, REL, fl):
                 return f"row {r} {h}: base{'×k' if tag == 'e' else ''} {a2!r} vs transformed {b!r} (rel {abs(a2-b)/max(abs(a2),abs(b)):.3g})"
     return None
 
 
-def floor_for(name, mu, ext, extensive):
-    """absolute floors added to the 1e-8 relative tolerance, taken from the solver's own acceptance criteria
-    (model.cpp check_residuals, convergence_tolerance eps = 1e-8): a converged state is only defined up to
-    charge-balance residual eps·I·water and mass-balance residuals eps·total, so
-    * molalities, element totals, alkalinity: eps·I (I = ionic strength of the row, mol/kgw) — species far below
-      I are trace quantities whose value moves with the residual the solver accepts;
+SI_SPECIES = {"Calcite": ["Ca+2", "CO3-2"], "Gypsum": ["Ca+2", "SO4-2"], "Halite": ["Na+", "Cl-"], "CO2(g)": ["CO2"],
+              "Quartz": ["H4SiO4"]}
+LN10 = math.log(10.0)
+
+
+def floor_for(name, mu, ext, extensive, row=None):
+    """absolute floors added to the 1e-8 relative tolerance, derived from the solver's own acceptance criteria
+    (model.cpp check_residuals, convergence_tolerance eps = 1e-8): a converged state is only defined up to a
+    charge-balance residual eps·I·water and mass-balance residuals eps·total (I = ionic strength of the row). Hence
+    * element totals, alkalinity, molalities: eps·I (species far below I are trace quantities that move with the residual
+      the solver accepts); for species molalities the floor grows by m/beta when the solution is poorly buffered
+      (beta = max(|alkalinity|, m(H+), m(OH-)): a residual eps·I moves pH by eps·I/(beta·ln10));
     * mole amounts (TOTMOLE, EQUI, GAS, KIN, charge balance, SYS): eps·I·water;
-    * log quantities (pH, log activities, SI, psi): 1e-8 absolute (SI of an equilibrated phase is 0 ± rounding);
+    * log quantities: 1e-8 absolute (SI of an equilibrated phase is 0 ± rounding) + the image of the floors above:
+      pH eps·I/(beta·ln10); log activity of species s additionally eps·I/(m_s·ln10); SI the sum over its species;
     * everything else (mu, temperature, water mass, density, volume, conductance, activity of water): none."""
-    if name in ("pH",) or name.startswith(("la_", "si_")) or name == "psi":
-        return 1e-8
+    row = row or {}
+    eps = 1e-8
+
+    def g(h):
+        v = row.get(h)
+        return abs(v) if v else 0.0
+
+    beta = max(g("i:alk"), g("i:m_H+"), g("i:OH"), 1e-300)
+    amp = mu / beta
+
+    def inv(sp):
+        m = g("i:m_" + sp)
+        return mu / m if m > 0 else float("inf")
+
+    if name == "pH":
+        return 1e-8 + eps * amp / LN10
+    if name == "psi":
+        return 1e-8 + eps * amp / LN10
+    if name.startswith("la_"):
+        return 1e-8 + eps * (amp + inv(name[3:])) / LN10
+    if name.startswith("si_"):
+        return 1e-8 + eps * (amp + sum(inv(sp) for sp in SI_SPECIES.get(name[3:], []))) / LN10
     if name == "cb":
-        return 1e-8 * mu * ext
-    if name.startswith(("m_", "tot_", "OH")) or name == "alk":
-        return 1e-8 * mu
+        return eps * mu * ext
+    if name.startswith("m_") or name == "OH":
+        m = g("i:" + name)
+        return eps * mu * max(1.0, m / beta)
+    if name.startswith("tot_") or name == "alk":
+        return eps * mu
     if name.startswith(("totmole_", "equi_", "gas_", "kin")):
-        return 1e-8 * mu * ext
+        return eps * mu * ext
     return 0.0
 
 
@@ -522,7 +556,7 @@ def run(ctx):
     corr_fail = []
 
     # (i) convert_units correspondence
-    n1 = 2500 if big else 160
+    n1 = 6000 if big else 400
     cases = [G.conv_case(rng, db) for _ in range(n1)]
     blocks = parallel_ops(ctx, exe, dbpath, [f"conv {hx(t)} {hx(d['default'])}" for t, d in cases])
     cstat = {"ok_first": 0, "ok_iter": 0, "skip": 0}
@@ -558,7 +592,7 @@ def run(ctx):
     ctx.cov["convert_units"] = cstat
 
     # (i') mixing algebra correspondence
-    n2 = 500 if big else 50
+    n2 = 2000 if big else 120
     mcases = [mix_case(rng, db) for _ in range(n2)]
     blocks = parallel_ops(ctx, exe, dbpath, [f"mix {hx(t)} 4" for t, _ in mcases])
     mstat = {"ok_pos": 0, "ok_neg": 0, "skip": 0}
@@ -580,7 +614,7 @@ def run(ctx):
         big = True          # correspondence broken: search at the thorough budget
 
     # (ii) metamorphic pairs on the real engine
-    n3 = 3000 if big else 150
+    n3 = 12000 if big else 620
     pairs = []
     combos = [(k, f) for k in KINDS for f in FAMILIES
               if (f.startswith("mix_") and k == "mix") or (not f.startswith("mix_") and not (k == "mix" and f in ("dupblock",)))
@@ -608,6 +642,22 @@ def run(ctx):
             ctx.violation(f"C15 {key} (k={p['k']}): {what}: {det}",
                           {"kind": "pair", "pair": {x: p[x] for x in ("kind", "fam", "k", "a", "b", "last_only", "obs")}, "detail": det})
             break
+    # (ii-b) unit changes inside every family, all spellings: each convert_units case against its restatement in the base unit
+    if not ctx.violations:
+        sub = cases if big else cases[:150]
+        rpairs = [restate(db, t, d) for t, d in sub]
+        rres = run_pairs(ctx, exe, dbpath, rpairs)
+        for (t, d), p, (st, det) in zip(sub, rpairs, rres):
+            evals += 1
+            key = f"speciation/units-restated-{d['den']}"
+            dd = pstat.setdefault(key, {"ok": 0, "skip": 0})
+            if st in ("ok", "skip"):
+                dd[st] += 1
+                distinct += st == "ok"
+            else:
+                ctx.violation(f"C15 {key}: the same solution written in {d['default']} (+ per-element units) and in the base unit of the "
+                              f"family gives different results: {det}", {"kind": "pair", "pair": p, "detail": det})
+                break
     ctx.cov["pairs"] = pstat
     ctx.cov["evaluations"] = evals
     ctx.cov["distinct_nontrivial"] = distinct
@@ -675,6 +725,6 @@ MANIFEST = dict(
          "parser, spelling→canonical table cross-checked against the engine's report every run), comparison logic. Partial: check_units "
          "string canonicalisation and the formula parser are python-side tables tied by correspondence, not Lean models; invariance of the "
          "Newton solve itself is exploration only; pe is not compared (without a redox couple it is not determined by the input); floors (from the solver's "
-         "acceptance criteria): log quantities 1e-8 absolute, molalities/totals 1e-8·I, mole amounts 1e-8·I·water. Per-litre vs per-kg-water equivalence is not "
+         "acceptance criteria, see floor_for): totals/molalities 1e-8·I, mole amounts 1e-8·I·water, log quantities 1e-8 + the image of those through the buffer capacity. Per-litre vs per-kg-water equivalence is not "
          "claimed (density iteration). Code quirk outside the listed families: eq/kgs is left out of the solute mass while eq/l is not.",
 )
